@@ -8,6 +8,7 @@ package main
 
 import (
 	"bytes"
+	"context"
 	"crypto/sha256"
 	"encoding/base64"
 	"fmt"
@@ -15,9 +16,11 @@ import (
 	mrand "math/rand"
 	"strings"
 	"sync"
+	"time"
 
 	"github.com/superfly/macaroon"
 	"github.com/superfly/macaroon/auth"
+	"github.com/superfly/macaroon/bundle"
 	"github.com/superfly/macaroon/flyio"
 	"github.com/superfly/macaroon/resset"
 )
@@ -829,6 +832,50 @@ func famForge(r *Rng, o *Out, tier string) {
 			}
 		}
 	}
+	// through the bundle layer (bundle.WithKey / WithKeys, the observation point the property names): a token under a
+	// key-id the authority holds NO key for, its chain started from the empty key or from 32 zero bytes (HMAC pads
+	// both to the same block: what a resolver hands to verification if it looks the key up without checking it is
+	// there), alone and next to a genuine token. Nothing of it may be accepted.
+	{
+		key, kid := r.Bytes(32), []byte("kid-the-authority-knows")
+		loc := "https://api.fly.io/v1"
+		genuine, _ := macaroon.New(kid, loc, key)
+		genuine.Add(r.plainCav(1))
+		gs, _ := genuine.String()
+		verdict := "sound"
+		for _, fk := range [][]byte{nil, {}, make([]byte, 32), make([]byte, 64)} {
+			for _, fkid := range [][]byte{[]byte("kid-nobody-knows"), {}, append(append([]byte{}, kid...), 0), kid[:len(kid)-1]} {
+				f, err := macaroon.New(fkid, loc, fk)
+				if err != nil {
+					continue
+				}
+				f.Add(r.plainCav(1))
+				fs, err := f.String()
+				if err != nil {
+					continue
+				}
+				for _, hdr := range []string{"FlyV1 " + fs, "FlyV1 " + gs + "," + fs, "FlyV1 " + fs + "," + gs} {
+					for vi, v := range []bundle.Verifier{
+						bundle.WithKey(kid, key, nil),
+						bundle.WithKeys(map[string]macaroon.SigningKey{string(kid): key, "other": r.Bytes(32)}, nil),
+						bundle.NewVerificationCache(bundle.WithKey(kid, key, nil), time.Minute, 10),
+					} {
+						b, err := bundle.ParseBundle(loc, hdr)
+						if err != nil {
+							continue
+						}
+						sets, _ := b.Verify(context.Background(), v)
+						o.count("unknown-kid-under-the-empty-key")
+						want := strings.Count(hdr, gs)
+						if len(sets) != want && verdict == "sound" {
+							verdict = fmt.Sprintf("forgery:token-under-an-unknown-key-id-accepted-by-the-bundle-verifier:keylen=%d,kidlen=%d,verifier=%d", len(fk), len(fkid), vi)
+						}
+					}
+				}
+			}
+		}
+		o.emit("(const sound)", verdict)
+	}
 	// "independently minted tokens never share a nonce" whatever the host program does with ITS pseudo-random
 	// generator: the same math/rand seed before two mints (a host seeding for reproducible runs) must not make
 	// nonces, keys, tickets or sealed verifier keys repeat
@@ -1262,6 +1309,21 @@ func famDischarge(r *Rng, o *Out, tier string) {
 					twin(func(d *macaroon.Macaroon) { d.Tail[r.Intn(len(d.Tail))] ^= 1 }),
 					twin(func(d *macaroon.Macaroon) { d.UnsafeCaveats.Caveats = append(d.UnsafeCaveats.Caveats, r.plainCav(0)) }),
 					twin(func(d *macaroon.Macaroon) { d.UnsafeCaveats.Caveats = nil }),
+					// tails that are no HMAC-SHA256 output at all: truncated, lengthened, empty (a verifier that skips such
+					// candidates "cheaply" and silently ends up with no error to report)
+					twin(func(d *macaroon.Macaroon) { d.Tail = d.Tail[:16] }),
+					twin(func(d *macaroon.Macaroon) { d.Tail = d.Tail[:31] }),
+					twin(func(d *macaroon.Macaroon) { d.Tail = append(append([]byte{}, d.Tail...), 0) }),
+					twin(func(d *macaroon.Macaroon) { d.Tail = []byte{} }),
+				}
+				// ... and the same for a candidate under the attacker's own key
+				if jd, err := macaroon.New(u.ticket, u.p.loc, r.Bytes(32)); err == nil {
+					for _, n := range []int{0, 16, 33} {
+						jd.Tail = append([]byte{}, r.Bytes(64)[:n]...)
+						if jb, err := jd.Encode(); err == nil {
+							bads = append(bads, jb)
+						}
+					}
 				}
 				for bi, bad := range bads {
 					if bad == nil {
@@ -2943,7 +3005,75 @@ func famProof(r *Rng, o *Out, tier string) {
 
 // ---------------------------------------------------------------- C02 attenuate
 
+// a caveat the token carries only INSIDE a conditional is not a caveat the token carries: adding it at top level is an
+// attenuation like any other (the conditional lets a request through that does not name the resource; the added
+// caveat refuses it). A de-duplication that looks inside wrappers drops it silently.
+func attenuateNestedDuplicate(r *Rng, o *Out, n int) {
+	for i := 0; i < n; i++ {
+		key := r.Bytes(32)
+		org, app := uint64(1+r.Intn(3)), uint64(5+r.Intn(4))
+		var inner macaroon.Caveat
+		var named, unnamed *Dyn
+		base := func() *Dyn {
+			d := r.Dyn()
+			d.WF = ""
+			d.Org = p64(org)
+			d.Action = resset.ActionRead
+			d.App = nil
+			d.Volume = nil
+			return d
+		}
+		switch r.Intn(3) {
+		case 0:
+			inner = &flyio.Apps{Apps: resset.ResourceSet[uint64, resset.Action]{app: resset.ActionAll}}
+			named, unnamed = base(), base()
+			named.App = p64(app)
+		case 1:
+			v := fmt.Sprintf("vol_%d", app)
+			inner = &flyio.Volumes{Volumes: resset.ResourceSet[string, resset.Action]{v: resset.ActionAll}}
+			named, unnamed = base(), base()
+			named.Volume = &v
+		default:
+			inner = &flyio.Apps{Apps: resset.ResourceSet[uint64, resset.Action]{app: resset.ActionRead, app + 1: resset.ActionAll}}
+			named, unnamed = base(), base()
+			named.App = p64(app + 1)
+		}
+		m, err := macaroon.New(r.Bytes(8), "https://api.fly.io/v1", key)
+		if err != nil {
+			continue
+		}
+		m.Add(&flyio.Organization{ID: org, Mask: resset.ActionAll})
+		if r.Bool() {
+			m.Add(&resset.IfPresent{Ifs: macaroon.NewCaveatSet(inner), Else: resset.ActionRead})
+		} else { // two levels down
+			m.Add(&resset.IfPresent{Ifs: macaroon.NewCaveatSet(&resset.IfPresent{Ifs: macaroon.NewCaveatSet(inner), Else: resset.ActionRead}), Else: resset.ActionRead})
+		}
+		pb := mustEnc(m)
+		child, err := macaroon.Decode(pb)
+		if err != nil || doAdd(o, child, []addItem{{cav: inner}}) != nil {
+			continue
+		}
+		cb := mustEnc(child)
+		o.count("nested-duplicate")
+		for _, d := range []*Dyn{named, unnamed} {
+			acc, sx := d.As("full"), d.Sx("full")
+			for _, tok := range [][]byte{pb, cb} {
+				co := clearObs(key, tok, nil, []macaroon.Access{acc})
+				o.emit(fmt.Sprintf("(clear %s %s %s (trust) (%s))", hx(key), hx(tok), sxHexList(nil), sx), co)
+			}
+		}
+		// the request that names no resource: the parent clears it (else-branch), the child must not
+		acc := unnamed.As("full")
+		if clearObs(key, pb, nil, []macaroon.Access{acc}) == "ok" && clearObs(key, cb, nil, []macaroon.Access{acc}) == "ok" {
+			o.emit("(const sound)", "caveat-added-at-top-level-lost-because-a-conditional-holds-the-same-one")
+		} else {
+			o.emit("(const sound)", "sound")
+		}
+	}
+}
+
 func famAttenuate(r *Rng, o *Out, tier string) {
+	attenuateNestedDuplicate(r, o, 60)
 	n := 120
 	if tier == "thorough" {
 		n = 2000
